@@ -150,7 +150,10 @@ def _hnum(v):
 def header(box, zkms, extra=None):
     h = {'BoxSize': _hnum(box), 'VelZSpace_to_kms': _hnum(zkms), 'SimName': SIM, 'Redshift': 0.0, 'H0': 64.0,
          'ParticleMassHMsun': 1024.0, 'NP': 4096, 'ppd': 16.0, 'CPD': 3, 'OutputFormat': 'RVint',
-         'ScaleFactor': 1.0, 'VelZSpace_to_Canonical': 1.0, 'SODensityL1': 200.0}
+         'ScaleFactor': 1.0, 'SODensityL1': 200.0,
+         # a simulation run with hMpc = 0: the box in Mpc/h is another number than BoxSize (the unit of the stored halo
+         # coordinates is BoxSize; nothing in the catalog reader may use these keys as a length or velocity scale)
+         'hMpc': 0, 'BoxSizeHMpc': float(_hnum(box)) * 0.75, 'BoxSizeMpc': float(_hnum(box)), 'VelZSpace_to_Canonical': 0.25}
     if extra:
         h.update(extra)
     return h
